@@ -18,6 +18,8 @@ import (
 
 	"github.com/smartcontractkit/chainlink-automation/tools/simulator/simulate/chain"
 	"github.com/smartcontractkit/chainlink-automation/tools/simulator/simulate/upkeep"
+	simutil "github.com/smartcontractkit/chainlink-automation/tools/simulator/util"
+	common "github.com/smartcontractkit/chainlink-common/pkg/types/automation"
 )
 
 type feed struct{ ch chan chain.Block }
@@ -73,6 +75,13 @@ func TestC20RaceStress(t *testing.T) {
 						_, _ = src.GetRecoveryProposals(context.Background())
 					default:
 						_, _ = src.GetActiveUpkeeps(context.Background())
+						// what the check pipeline does with the perform history of an upkeep: walk it
+						sum := int64(0)
+						for _, blk := range performs.PerformsForUpkeepID(common.UpkeepIdentifier(h32("u", 0)).String()) {
+							sum += blk.Int64()
+						}
+						_ = sum
+						_ = performs.IsWorkIDPerformed("none")
 					}
 					time.Sleep(time.Duration(50+37*p) * time.Microsecond)
 				}
@@ -83,8 +92,13 @@ func TestC20RaceStress(t *testing.T) {
 			if n%3 != 0 { // logs in consecutive blocks, well inside one poll interval
 				b.Transactions = append(b.Transactions, chain.Log{TxHash: h32("tx", n), BlockNumber: big.NewInt(int64(n)), BlockHash: b.Hash, Idx: uint32(n), TriggerValue: "ev"})
 			}
-			if n%10 == 0 {
-				b.Transactions = append(b.Transactions, chain.PerformUpkeepTransaction{})
+			if n%2 == 0 {
+				// the same conditional upkeep performed again and again (more often than any shipped plan does)
+				id := common.UpkeepIdentifier(h32("u", 0))
+				trg := common.NewTrigger(common.BlockNumber(n), b.Hash)
+				rep, _ := simutil.EncodeCheckResultsToReportBytes([]common.CheckResult{{UpkeepID: id, Trigger: trg, WorkID: simutil.UpkeepWorkID(id, trg), Eligible: true}})
+				b.Transactions = append(b.Transactions, chain.PerformUpkeepTransaction{Transmits: []chain.TransmitEvent{{
+					SendingAddress: "0x1", Report: rep, Hash: h32("rep", n), Round: uint64(n), BlockNumber: big.NewInt(int64(n)), BlockHash: b.Hash}}})
 			}
 			f.ch <- b
 			time.Sleep(300 * time.Microsecond)
